@@ -4,12 +4,12 @@ BOUNDS = {"application regions": "0-3 regions; address fully symbolic; length is
           "instruction window": "ip fully symbolic relative to a symbolic mapping (1..64 pages), window request == [max(start, ip-128), min(end, ip+128))"}
 OUTSIDE = ["regions longer than 32 bytes (one copy call whatever the length; the readers are C17)", "regions adjacent to unmapped pages against the real readers (C17's contract)",
            "no mapping covers page 0 or the last page (ip-128 / ip+128 do not wrap)"]
-ASSUMPTIONS = ["copy_from_process contract stub (records the request, returns min(len, 32) arbitrary bytes)", "std::fmt::format stubbed"]
+ASSUMPTIONS = ["copy_from_process contract stub (records the request, returns min(len, 32) arbitrary bytes); nix process_vm_readv stubbed to feed the same ghost log, so a writer that bypasses copy_from_process is still observed", "std::fmt::format stubbed"]
 TL = {"XMM_SAVE_AREA32": 100, "MINIDUMP_EXCEPTION": 20, "alloc_from_array": 20}
 def A(n, d, tier="quick"): return H("c07_memory_list::" + n, desc=d, tier=tier, loops={"extend_with": 40, "alloc_from_array": 8})
 HARNESSES = [
-    A("c07_app_none", "no application region: empty list"), A("c07_app_len1", "one 1-byte region"), A("c07_app_len7_len9", "two regions, 7 and 9 bytes"),
-    A("c07_app_len8_len16", "two regions, 8 and 16 bytes"), A("c07_app_len32", "one 32-byte region"), A("c07_app_three", "three regions", "thorough"),
+    H("c07_memory_list::c07_app_none", desc="no application region: empty list", loops={"extend_with": 40, "alloc_from_array": 8}, expect_unsat_covers=("at least one region", "64-bit address")), A("c07_app_len1", "one 1-byte region"), A("c07_app_len7_len9", "two regions, 7 and 9 bytes"),
+    A("c07_app_len8_len16", "two regions, 8 and 16 bytes"), A("c07_app_len32", "one 32-byte region"), A("c07_app_len16_len4", "a shorter region after a longer one"), A("c07_app_three", "three regions", "thorough"),
     A("c07_app_read_fails", "second region unreadable: hard error"),
     H("c06_stacks::c04_tl_1thread_crash", desc="instruction-pointer window and stack registration (thread list with crash context)", timeout=2400, loops=TL, est_gb=14, mem_gb=30, tier="thorough"),
 ]
